@@ -72,6 +72,16 @@ def gen_cases(rng, tier):
                 cases.append({'kind': 'ref', 'm': m, 'q': _frs(k + t)})
     if tier != 'thorough':
         cases = rng.sample(cases, 900)
+    # money has no reference unit: quantize is rejected with TypeError, also for a quantum in
+    # the amount's own currency and for a zero amount (seeded C13-i, C13-d)
+    for _ in range(12 if tier == 'quick' else 120):
+        cur = rng.sample(['EUR', 'CHF', 'JPY', 'BHD'], 2)
+        u = cur[0]
+        v = rng.choice([u, u, cur[1]])
+        cases.append({'kind': 'quantize', 'world': {'currencies': cur}, 'dm': rng.choice(W.MODES),
+                      'u': u, 'v': v, 'a': ['dec', rng.choice(['869/50', '0/1', '-5/1', '1738/100'])],
+                      'b': ['dec', rng.choice(['1/20', '1/1', '5/1'])],
+                      'rm': rng.choice(W.MODES + [None])})
     for _ in range(n):
         world = _pick_world(rng)
         views = W.Views(world)
